@@ -8,6 +8,7 @@ minimiser drop segments and gaps and lets a replay file be self-contained.
 """
 
 import datetime
+import math
 import os
 
 from . import env
@@ -43,6 +44,8 @@ def _heavy(rng, s0):
     c = rng.random()
     if c < 0.15:
         return _r3(s0 * 2)                      # repeated value: ties in totals
+    if c < 0.21:
+        return math.nextafter(_r3(s0), math.inf)  # one float above the nominal threshold: a storm step
     return _r3(s0 * rng.uniform(1.05, 4.0))
 
 
@@ -52,6 +55,8 @@ def _light(rng, s0):
         return 0.0
     if c < 0.35:
         return _r3(s0)                          # exactly the nominal threshold: not a storm
+    if c < 0.39:
+        return math.nextafter(_r3(s0), 0.0)     # one float below it: not a storm either
     return _r3(s0 * rng.uniform(0.05, 0.95))
 
 
@@ -162,7 +167,7 @@ def gen_spec(rng, size=None):
     """Draw a synthetic dataset spec."""
     # time steps that divide an hour, that do not (45 min), and that exceed it (2 h, daily)
     dt = rng.choice([600, 1200, 1800, 1800, 3600, 3600, 900, 2700, 7200, 86400])
-    s0 = rng.choice([2.0, 4.0, 8.0])
+    s0 = rng.choice([2.0, 4.0, 8.0, 3.0, 6.0, 0.3])      # powers of two and not (products with dt_h round differently)
     j0 = rng.choice([2.0, 5.0, 8.0])
     if dt > 3600:
         # keep the water-level change per step (and with it the number of grid levels a rise
